@@ -4,6 +4,7 @@ import SFV.Lemmas.CombNested
 import SFV.Lemmas.CombNestedCart
 import SFV.Lemmas.CombNestedDot
 import SFV.Lemmas.CombNoRaise
+import SFV.Lemmas.CombStep
 /-! # C02 — combinators emit exactly the right combinations, whatever the arrival order
 
 Property theorems only. The statements are about the LOOP-FAITHFUL executable model of
@@ -291,5 +292,23 @@ theorem nested_cart_depth2_counterexample :
       [(0, ⟨[0, 0, 2], 1⟩), (1, ⟨[0, 1, 1], 3⟩), (1, ⟨[0, 0, 1], 2⟩), (2, ⟨[0], 9⟩)]).out.map (fun e => e.map (·.2.val))
       = [[1, 2, 9]] := by
   decide +kernel
+
+/-- **Output ports of a dot-product `CombinatorStep`.** `CombinatorStep.run` feeds every arriving token to `combine`
+    and puts the tokens of every yielded schema on the output port of the same name (`portLog p out`; this step-level
+    model is compared with the real step, ports + persistence + controlled interleaving, on every run). For every
+    arrival order of a well-formed stream the log of output port `p` is, as a multiset, column `p` of the specification. -/
+theorem step_dot_port_logs (P : Nat) (S es : List Ev) (hwf : WFDot P S) (hperm : es.Perm S) (p : Nat) (hp : p < P) :
+    (portLog p (runDot P es).out).Perm (portLog p (specDot P S)) :=
+  Comb.step_dot_port_logs S es hwf hperm p hp
+
+/-- the same for a cartesian-product step -/
+theorem step_cart_port_logs (depth P L : Nat) (S es : List Ev) (hwf : WFCart depth P L S) (hperm : es.Perm S) (p : Nat) :
+    (portLog p (runCart depth P es).out).Perm (portLog p (specCart depth P S)) :=
+  Comb.step_cart_port_logs S es hwf hperm p
+
+/-- non-vacuity: the specified log of output port 0 in the broadcast-to-two-children stream, and the step status -/
+example : portLog 0 (specDot 2 [(0, ⟨[0], 1⟩), (1, ⟨[0, 10], 2⟩), (1, ⟨[0, 9], 3⟩)]) = [⟨[0, 10], 1⟩, ⟨[0, 9], 1⟩] := by decide
+example : stepStatus [0, 1] (runDot 2 [(1, ⟨[0, 10], 2⟩), (0, ⟨[0], 1⟩), (1, ⟨[0, 9], 3⟩)]).out = .completed ∧
+    stepStatus [0, 1] (runDot 2 [(1, ⟨[0, 10], 2⟩)]).out = .skipped := by decide +kernel
 
 end SFV.C02
